@@ -214,6 +214,11 @@ func (x *dInst) mis(kind, format string, a ...any) *space.Mismatch {
 	return &space.Mismatch{Sig: fmt.Sprintf("DList.%s|%s|%s", x.last, kind, x.class), What: fmt.Sprintf(format, a...)}
 }
 
+// misQ is a mismatch attributed to a read-only query instead of the last operation.
+func misQ(query, kind, class, format string, a ...any) *space.Mismatch {
+	return &space.Mismatch{Sig: query + "|" + kind + "|" + class, What: fmt.Sprintf(format, a...)}
+}
+
 // created compares the node returned by a value insertion with container/list's element.
 func (x *dInst) created(n *dnode, e *list.Element, v Val) *space.Mismatch {
 	if (n == nil) != (e == nil) {
@@ -496,7 +501,8 @@ func (x *dInst) checkList(name string, l *listz.DList[Val], c *list.List) *space
 	if !eqVals(rev, want) {
 		return x.mis("wrong-reverse-sequence", "%s: Back/Prev traversal (reversed) %v, container/list %v", ctx, rev, want)
 	}
-	// All: complete, and stopped after the first element
+	// All: complete, and stopped after the first element. The forward traversal and Len already
+	// agree with container/list here, so a difference is All's own and is attributed to it.
 	var all []Val
 	for v := range l.All() {
 		all = append(all, v)
@@ -505,15 +511,15 @@ func (x *dInst) checkList(name string, l *listz.DList[Val], c *list.List) *space
 		}
 	}
 	if !eqVals(all, want) {
-		return x.mis("wrong-iterator", "%s: All yields %v, container/list %v", ctx, all, want)
+		return misQ("DList.All", "wrong-iterator", "full", "%s: All yields %v, container/list %v", ctx, all, want)
 	}
 	var first []Val
-	for v := range l.All() {
-		first = append(first, v)
-		break
+	l.All()(func(v Val) bool { first = append(first, v); return false }) // explicit call: no runtime check in the way
+	if len(first) > 1 {
+		return misQ("DList.All", "continues-after-stop", "stopped", "%s: All called yield %d times although the first call returned false", ctx, len(first))
 	}
 	if len(want) > 0 && (len(first) != 1 || first[0] != want[0]) || len(want) == 0 && len(first) != 0 {
-		return x.mis("wrong-iterator", "%s: All stopped after one element yields %v, container/list %v", ctx, first, want)
+		return misQ("DList.All", "wrong-iterator", "stopped", "%s: All stopped after one element yields %v, container/list %v", ctx, first, want)
 	}
 	// handles: every element of container/list has its node, the traversal meets exactly these
 	// nodes, and Next/Prev/Value of every handle agree with the element's
